@@ -7,6 +7,7 @@ import (
 	"os/exec"
 	"path/filepath"
 	"strings"
+	"sync"
 	"syscall"
 	"testing"
 	"time"
@@ -99,6 +100,50 @@ func TestC17(t *testing.T) {
 			}
 			o.Captured = true
 			within(30*time.Second, cl.Kill)
+			e.Ret("h", "Start", o)
+			return
+		}
+		if p.TwoClients {
+			var mu sync.Mutex
+			cfg.RunnerFunc = func(l hclog.Logger, cmd *exec.Cmd, tmp string) (runner.Runner, error) {
+				mu.Lock()
+				o.TwoTmp = append(o.TwoTmp, tmp)
+				dir := "<unset>"
+				for _, kv := range cmd.Env {
+					if v, ok := strings.CutPrefix(kv, "PLUGIN_UNIX_SOCKET_DIR="); ok {
+						dir = v
+					}
+				}
+				o.TwoEnvDir = append(o.TwoEnvDir, dir)
+				mu.Unlock()
+				return vp.NewScriptRunner(func(r *vp.ScriptRunner) {
+					fmt.Fprintf(r.Out, "1|1|unix|%s|netrpc|\n", filepath.Join(tmp, "sock"))
+					<-r.Done()
+				}), nil
+			}
+			hostSets(cfg, "legacy1")
+			cfg.ProtocolVersion, cfg.VersionedPlugins = 1, nil
+			cfg.Plugins = vp.Set("netrpc", 1, []string{"kv"}, nil)
+			a, b := plugin.NewClient(cfg), plugin.NewClient(cfg)
+			exist := func() string {
+				s := ""
+				for i, d := range o.TwoTmp {
+					if fi, err := os.Stat(d); err == nil && fi.IsDir() {
+						s += string(rune('A' + i))
+					}
+				}
+				return s
+			}
+			for _, cl := range []*plugin.Client{a, b} {
+				_, err := cl.Start()
+				o.TwoStartErr = append(o.TwoStartErr, errStr(err))
+			}
+			o.ExistBoth = exist()
+			within(30*time.Second, a.Kill)
+			o.ExistAfterA = exist()
+			within(30*time.Second, b.Kill)
+			o.ExistAfterB = exist()
+			o.Captured = true
 			e.Ret("h", "Start", o)
 			return
 		}
